@@ -300,6 +300,9 @@ func checkCase(c Case, o *vt.Obs) error {
 	}
 	defer w.close()
 	o.Labelf("profile-%s", c.Chain.Profile)
+	if c.Node.NoVerifyTx {
+		o.Label("node-does-not-verify-block-transactions")
+	}
 	if c.Corr.Kind != "*" {
 		e := byKind[c.Corr.Kind]
 		if e == nil {
